@@ -51,6 +51,8 @@ func ErrClass(err error) string {
 		return "inval"
 	case errors.Is(err, syscall.EBADF):
 		return "badf"
+	case errors.Is(err, syscall.EIO):
+		return "io"
 	}
 	return "other(" + msg + ")"
 }
@@ -66,6 +68,7 @@ func fsErr(err error) string {
 type Runner struct {
 	Fs  afero.Fs
 	Src afero.Fs // optional: lines prefixed "src." act on it (same handle table)
+	Alt map[string]afero.Fs // optional: other prefixes ("b", "l", …) -> filesystem
 	H   []afero.File
 	T0 time.Time // script times are offsets (seconds) from T0
 }
@@ -102,6 +105,14 @@ func (r *Runner) Exec(t []string) string {
 		r.Fs = r.Src
 		defer func() { r.Fs = saved }()
 		t = append([]string{strings.TrimPrefix(t[0], "src.")}, t[1:]...)
+	}
+	if k := strings.Index(t[0], "."); k > 0 && r.Alt != nil {
+		if fs, ok := r.Alt[t[0][:k]]; ok {
+			saved := r.Fs
+			r.Fs = fs
+			defer func() { r.Fs = saved }()
+			t = append([]string{t[0][k+1:]}, t[1:]...)
+		}
 	}
 	arg := func(i int) string { return string(corr.UnHex(t[i])) }
 	switch t[0] {
